@@ -30,6 +30,7 @@ Seq_200 == <<200>>
 Seq_9_300 == <<9, 300>>
 Seq_1_2 == <<1, 2>>
 Seq_1_2_3 == <<1, 2, 3>>
+Seq_1_2_3_2 == <<1, 2, 3, 2>>
 Seq_1_1_1 == <<1, 1, 1>>
 CSizes_distinct == <<400, 410, 405, 430, 390, 440>>
 CSizes_ties == <<400, 410, 410, 400, 410, 400>>
@@ -133,14 +134,16 @@ FamilyInputs ==
                     cs \in CommitSeqs(1, NCommit, NTree),
                     tgs \in TagSeqs(1, NTag)}}
     [] Family = "Bomb" ->
-         \* chains of NTree trees of breadth 1..MaxEnt: tree i holds br entries pointing at tree i-1
+         \* chains of NTree trees of breadth 1..MaxEnt: tree i holds br entries pointing at tree i-1,
+         \* and (mix) one more file entry sorted after them
          {<<g, HeadRoots(g)>> :
             g \in {[blobs |-> BlobSizes,
                     trees |-> [i \in 1..NTree |->
                                  IF i = 1 THEN [j \in 1..br |-> Ent(lk, 1, j)]
-                                 ELSE [j \in 1..br |-> Ent("tree", i - 1, j)]],
+                                 ELSE [j \in 1..(br + (IF mix THEN 1 ELSE 0)) |->
+                                         IF j <= br THEN Ent("tree", i - 1, j) ELSE Ent("file", 1, j)]],
                     commits |-> <<[size |-> CommitSizes[1], tree |-> NTree, parents |-> <<>>]>>,
-                    tags |-> <<>>] : br \in 1..MaxEnt, lk \in EntKinds \ {"tree"}}}
+                    tags |-> <<>>] : br \in 1..MaxEnt, lk \in EntKinds \ {"tree"}, mix \in BOOLEAN}}
     [] OTHER -> {}
 
 Init == \E x \in FamilyInputs : \E st \in Styles : InitWith(x[1], x[2], st)
